@@ -28,8 +28,25 @@ Inductive gg_body :=
   | GGResolve (attr : string) (dflt : string).          (* DiscriminativeModel.get_gemini: None / str / instance *)
 
 Record init_desc := { i_params : list (string * option const); i_body : list stmt }.
+
+(* straight-line method bodies (score): where the values of the local variables come from.
+   MOrElse a b = "a unless it is None, then b" (result of `if v is None: v = b`) *)
+Inductive mexpr :=
+  | MVar (v : string) | MConst (c : const)
+  | MSelfCall (m : string) (args : list mexpr)            (* self.m(args) *)
+  | MSelfAttr (a : string)                                (* self.a *)
+  | MGetAttr (a : string) (d : mexpr)                     (* getattr(self, "a", d) *)
+  | MMeth (o : mexpr) (m : string) (args : list mexpr)    (* o.m(args) *)
+  | MApply (f : mexpr) (args : list mexpr)                (* f(args), f a local variable *)
+  | MFn (f : string) (args : list mexpr)                  (* module-level function f(args) *)
+  | MOrElse (a b : mexpr).
+Inductive mstmt :=
+  | MAssign (v : string) (e : mexpr) | MIfNone (v : string) (e : mexpr)
+  | MSetAttr (a : string) (e : mexpr) | MReturn (e : mexpr).
+
 Record class_desc := { c_name : string; c_parent : option string; c_init : option init_desc;
-                       c_methods : list string; c_get_gemini : option gg_body }.
+                       c_methods : list string; c_get_gemini : option gg_body;
+                       c_score : option (list mstmt) }.
 
 (* gemini/_utils.py: AVAILABLE_GEMINIS and the if-chain of _str_to_gemini, in source order *)
 Record registry := { r_available : list string; r_chain : list (string * (string * list (string * const))) }.
@@ -130,6 +147,42 @@ Definition param_names tbl cls : list string := map fst (ctor_params tbl cls).
 (* the full keyword call Cls(p1=rho p1, ..., pk=rho pk) *)
 Definition kw_of (tbl : list class_desc) (cls : string) (rho : string -> value) : list (string * value) :=
   map (fun p => (p, rho p)) (param_names tbl cls).
+
+(* ---------------------------------------------------------------- score: symbolic return value *)
+Fixpoint msubst (env : list (string * mexpr)) (e : mexpr) : mexpr :=
+  match e with
+  | MVar v => match lookup v env with Some t => t | None => MVar v end
+  | MConst c => MConst c
+  | MSelfCall m args => MSelfCall m (map (msubst env) args)
+  | MSelfAttr a => MSelfAttr a
+  | MGetAttr a d => MGetAttr a (msubst env d)
+  | MMeth o m args => MMeth (msubst env o) m (map (msubst env) args)
+  | MApply f args => MApply (msubst env f) (map (msubst env) args)
+  | MFn f args => MFn f (map (msubst env) args)
+  | MOrElse a b => MOrElse (msubst env a) (msubst env b)
+  end.
+(* the returned expression in terms of self, the arguments and calls made at that time; the
+   attributes written on the way *)
+Fixpoint run_body (env : list (string * mexpr)) (writes : list string) (b : list mstmt) : option (mexpr * list string) :=
+  match b with
+  | [] => None
+  | MReturn e :: _ => Some (msubst env e, writes)
+  | MAssign v e :: r => run_body ((v, msubst env e) :: env) writes r
+  | MIfNone v e :: r => run_body ((v, MOrElse (msubst env (MVar v)) (msubst env e)) :: env) writes r
+  | MSetAttr a e :: r => run_body env (a :: writes) r
+  end.
+Definition score_term (tbl : list class_desc) (cls : string) : option (mexpr * list string) :=
+  match find_method tbl (chain_fuel tbl) cls "score" with
+  | Some c => match c_score c with Some b => run_body [] [] b | None => None end
+  | None => None
+  end.
+(* result conversions that do not change which objective / affinity is used *)
+Fixpoint strip_conv (e : mexpr) : mexpr :=
+  match e with
+  | MMeth o m [] => if String.eqb m "item" then strip_conv o else e
+  | MFn f [a] => if String.eqb f "float" then strip_conv a else e
+  | _ => e
+  end.
 
 (* ---------------------------------------------------------------- GEMINI objects *)
 Inductive gobj := GUser (v : value) | GNew (cls : string) (attrs : list (string * value)).
@@ -277,4 +330,4 @@ Definition fit_history (n : nat) (step : list (list T) -> nat -> St -> St) (step
            pwf callf (y : option (nat -> nat -> T)) (o : outcome) : option (list St) :=
   option_map (fun A => history step (mat_tab n A) 0 steps s0) (affinity_matrix pwf callf y o).
 End Train.
-(* EXTRACT: construct ctor_params estimator_gemini resolve_gemini str_to_gemini describe training_affinity affinity_dispatch affinity_warns kauri_dispatch kernelrim_dispatch method_owner *)
+(* EXTRACT: score_term strip_conv construct ctor_params estimator_gemini resolve_gemini str_to_gemini describe training_affinity affinity_dispatch affinity_warns kauri_dispatch kernelrim_dispatch method_owner *)
